@@ -20,6 +20,11 @@ chromosome names ... Any other tags are assumed to be the name of a haplotype" (
 names of its pieces say.
 Known class "name-derived-haplotype" (README.md): an unplaced input scaffold whose name matches ^[^_]+_.+_\\d+$ with a
 prefix that is not a haplotype tag of the map is routed to an invented assembly.
+"Starts with that haplotype's name" says nothing about the rest of the name.  Scope `shaped` (shaped_name_cases): unplaced and
+absent input scaffolds called <haplotype in upper / lower / tag case>_<middle>_<digits> where <middle> is anything assemblers,
+polishers and sequence databases put into names: letters and digits, further underscores, '.', '-', '#', '|', ':', '=', '+',
+'@', ';', ',', '(', ')', '~', '/', '*', a single character, a letter outside ASCII; <digits> with leading zeros or long.  All of them HAVE
+the shape <known haplotype>_<anything>_<digits>, so neither known class applies: a failure here is a plain failure.
 
 The destination is observed at two places (the property's observe_at):
   1. the dict returned by BuildAssembly.assemblies_with_scaffolds_fused: the key under which every base is found AND the
@@ -1122,6 +1127,125 @@ def partial_cases(tier, rng):
             yield case
 
 
+# ------------------------------------------------------------------------------- <haplotype>_<anything>_<digits>
+
+# the middle part of an input name <haplotype>_<middle>_<digits>
+NAME_MIDDLES = (
+    # letters and digits
+    "SCAFFOLD", "scaffold", "ctg12", "ptg000012l", "Contig7b", "a", "7",
+    # further underscores
+    "ctg_12", "scaffold_3_pilon", "a_b_c", "x__y",
+    # what assemblers, polishers and databases put into names
+    "contig-33", "ptg000012l.1", "h2tg07#pilon", "ctg|arrow", "utg:7", "tig=12", "ctg+1", "NC@7", "JAB01.1-RC", "tig00012;len=5", "ctg(2)", "s,1", "ctg~1", "a/b", "*", "-", ".",
+    # a letter outside ASCII (cases holding it are not run through the command line: the files are written in the locale's encoding)
+    "contig\u00e9",
+)
+NAME_DIGITS = ("{i}", "{i:03d}", "{i}000000", "0{i}")
+
+
+def shaped_name_case(haps, middles, bpt, primary, rng, n, cli):
+    """
+    a map of len(haps) haplotypes: two painted chromosomes per haplotype (alternating, tagged; the first one of haplotype
+    `primary` - an index, or None - also carries the Primary tag), one unplaced scaffold <HAP>_SCAFFOLD_<i> per haplotype, and
+    for every middle part in `middles` an UNPLACED input scaffold (an unpainted, untagged Pretext scaffold of its own) and, at
+    texel sizes above 7 bp, an input scaffold shorter than a texel that is ABSENT from the map, both called
+    <haplotype>_<middle>_<digits>; the haplotype (rotating), its spelling in the name (upper / lower / as in the tag) and the
+    form of the number rotate with n
+    """
+    n_hap = len(haps)
+    margin = pg.margin_of(bpt)
+    long_enough = max(120, 2 * margin + 60)
+    inp = []
+
+    def add(name, lengths):
+        sc = pg.make_scaffold(name, lengths, [rng.choice((1, -1)) for _ in lengths], [(10, "scaffold")] * (len(lengths) - 1), "fasta", tag=str(len(inp) + 1))
+        inp.append(sc)
+        return sc
+
+    def whole(sc):
+        return pg.pieces_of(sc, bpt, rng.choice(("floor", "ceil")) if bpt > 1 else "floor", ())[0]
+
+    plan = []
+    for j, h in enumerate(list(haps) * 2):
+        sc = add(f"{h.upper()}_SCAFFOLD_{len(inp) + 1}", [max(400 - 30 * j, long_enough)])
+        plan.append({"painted": True, "hap": h, "name_tag": None, "target": False, "pieces": [(whole(sc), rng.choice((1, -1)), [])]})
+    unplaced = []
+    for h in haps:
+        sc = add(f"{h.upper()}_SCAFFOLD_{len(inp) + 1}", [long_enough])
+        unplaced.append({"painted": False, "hap": None, "name_tag": None, "target": False, "pieces": [(whole(sc), 1, [])]})
+    k = n
+    for middle in middles:
+        for where in ("unplaced", "absent"):
+            if where == "absent" and bpt <= 7:
+                continue
+            k += 1
+            h = haps[k % n_hap]
+            form = (h.upper(), h.lower(), h)[(k // n_hap) % 3]
+            i = len(inp) + 1
+            name = f"{form}_{middle}_{NAME_DIGITS[(k // 3) % len(NAME_DIGITS)].format(i=i)}"
+            if where == "unplaced":
+                sc = add(name, [long_enough] if k % 4 else [long_enough, 40])
+                unplaced.append({"painted": False, "hap": None, "name_tag": None, "target": False, "pieces": [(whole(sc), rng.choice((1, -1)), [])]})
+            else:
+                add(name, [7] if k % 4 else [2, 2])
+    rng.shuffle(unplaced)
+    mp = pg.plan_to_map(plan + unplaced, bpt, rng)
+    case = {"input": inp, "map": mp, "prefix": ("SUPER_", "chr")[n % 2], "via": pg.pick_via(inp, n), "mode": ("single", "one", "two", "three")[n_hap], "shaped": list(middles)}
+    if cli and all(m.isascii() for m in middles):
+        case["cli_out"] = CLI_OUT_NAMES[n % len(CLI_OUT_NAMES)]
+    if primary is not None:
+        psc = mp["scaffolds"][primary]  # the first painted scaffold of haplotype number `primary`
+        where = rng.choice(("all", "first", "last"))
+        for i, piece in enumerate(psc):
+            if where == "all" or (where == "first" and i == 0) or (where == "last" and i == len(psc) - 1):
+                piece[4].append("Primary")
+        case["primary_mode"] = haps[primary]
+    return case
+
+
+def shaped_name_cases(tier, rng):
+    """
+    ENUMERATED scope "unplaced scaffolds whose input name starts with that haplotype's name go to that haplotype's assembly",
+    whatever the rest of the name looks like: shaped_name_case for every middle part of NAME_MIDDLES (three per case; each one
+    as an unplaced AND as an absent scaffold).
+    quick: per group of three middles one two-haplotype map and one map rotating between Primary-tag mode, one haplotype and
+    three haplotypes (texel size 10 / 33.3 rotating, every second case through the command line); thorough: every haplotype
+    tag set (incl. the other spellings) x every group x texel sizes 1, 10, 33.3 x no Primary tag / Primary on the first / on the
+    second haplotype x 2 seeded repetitions, plus one-haplotype and three-haplotype maps; every fifth through the command line.
+    """
+    quick = tier == "quick"
+    groups = [NAME_MIDDLES[i : i + 3] for i in range(0, len(NAME_MIDDLES), 3)]
+    n = 0
+    if quick:
+        for gi, middles in enumerate(groups):
+            n += 1
+            bpt = (10.0, 33.3)[gi % 2]
+            yield shaped_name_case(HAP_TAG_SETS[gi % len(HAP_TAG_SETS)], middles, bpt, None, rng, n, cli=gi % 2 == 0)
+            n += 1
+            kind = gi % 4
+            if kind in (0, 2):
+                yield shaped_name_case(HAP_TAG_SETS[(gi + 1) % len(HAP_TAG_SETS)], middles, (33.3, 10.0)[gi % 2], (gi // 2) % 2, rng, n, cli=gi % 2 == 1 or kind == 0)
+            elif kind == 1:
+                yield shaped_name_case(ODD_HAP_TAG_SETS[gi % len(ODD_HAP_TAG_SETS)][:1], middles, 10.0, None, rng, n, cli=True)
+            else:
+                yield shaped_name_case(HAP_TAG_TRIPLES[gi % 2], middles, 10.0, None, rng, n, cli=False)
+        return
+    for haps in HAP_TAG_SETS + ODD_HAP_TAG_SETS:
+        for middles in groups:
+            for bpt in (1.0, 10.0, 33.3):
+                for primary in (None, 0, 1):
+                    for _ in range(2):
+                        n += 1
+                        yield shaped_name_case(haps, middles, bpt, primary, rng, n, cli=n % 5 == 0)
+            n += 1
+            yield shaped_name_case(haps[:1], middles, (10.0, 33.3)[n % 2], None, rng, n, cli=n % 5 == 0)
+    for haps in HAP_TAG_TRIPLES + ODD_HAP_TAG_TRIPLES:
+        for middles in groups:
+            for primary in (None, 0, 1, 2):
+                n += 1
+                yield shaped_name_case(haps, middles, (10.0, 33.3, 1.0)[n % 3], primary, rng, n, cli=n % 5 == 0)
+
+
 # hand-made minimal case that is always run: HAP1_3 begins with "<haplotype>_" but is written to the primary assembly
 FIXED_CASES = [
     {
@@ -1160,7 +1284,8 @@ def run(tier, seed, **opts):
         "seen anywhere -> Contaminant, else haplotype by input name, else primary); PLUS an enumerated scope 'the haplotype TAG decides': two-haplotype maps in which "
         "painted and unpainted scaffolds tagged with one haplotype begin with (or consist of) input scaffolds named after the other, or input names say nothing "
         "(scaffold_<n>), for every haplotype tag set incl. other spellings (h1/h2, m/p, a/b, p1/p2, 1a/2a, i/ii, x/y, HA/HB, MAT/PAT, hap1/hap2, Hb1/Hb2: anything but an "
-        "upper-case letter followed by digits is documented as a haplotype name); every fourth seeded haplotype map uses one of these spellings; every enumerated case and every n-th seeded case is also run through the "
+        "upper-case letter followed by digits is documented as a haplotype name); every fourth seeded haplotype map uses one of these spellings; PLUS an enumerated scope of unplaced and absent input scaffolds named "
+        "<haplotype>_<middle>_<digits> for every kind of middle part (word characters, further underscores, punctuation, non-ASCII) in one-, two-, three-haplotype and Primary-tag maps: they go to the haplotype their name starts with; every enumerated case and every n-th seeded case is also run through the "
         "pretext-to-asm command line (TPF or AGP output) and every judged base is looked up in the written files, whose "
         "names must be the documented destination (*.contaminants.*, *.falseduplicates.*, *haplotigs.*, "
         "*.primary.curated.*, *.<hap>.*.primary.curated.*); non-trivial = distinct completed case with >= 1 judged "
@@ -1168,7 +1293,7 @@ def run(tier, seed, **opts):
     )
     n_cases = 4000 if tier == "quick" else 120000
     cli_every = 25 if tier == "quick" else 40  # every n-th seeded case is also run through the command line
-    stats = {"rejected_tagging": 0, "judged": 0, "single": 0, "one": 0, "two": 0, "three": 0, "enumerated": 0, "enumerated_rejected": 0, "cli": 0, "primary_mode": 0, "moved": 0, "moved_rejected": 0, "partial": 0, "partial_rejected": 0, "partial_with_absent_contigs": 0}
+    stats = {"rejected_tagging": 0, "judged": 0, "single": 0, "one": 0, "two": 0, "three": 0, "enumerated": 0, "enumerated_rejected": 0, "cli": 0, "primary_mode": 0, "moved": 0, "moved_rejected": 0, "partial": 0, "partial_rejected": 0, "partial_with_absent_contigs": 0, "shaped": 0, "shaped_rejected": 0}
     known_failures = {}
 
     def stream():
@@ -1182,6 +1307,8 @@ def run(tier, seed, **opts):
             yield "partial", -1, c
         for c in moved_cases(tier, random.Random(f"c09-moved-{seed}")):
             yield "moved", -1, c
+        for c in shaped_name_cases(tier, random.Random(f"c09-shaped-{seed}")):
+            yield "shaped", -1, c
         for i in range(n_cases):
             c = make_case(rng, i)
             if i % cli_every == 5:
@@ -1201,6 +1328,9 @@ def run(tier, seed, **opts):
         if family == "moved":
             stats["moved"] += 1
             stats["moved_rejected"] += judged is None
+        if family == "shaped":
+            stats["shaped"] += 1
+            stats["shaped_rejected"] += judged is None
         if family == "partial":
             stats["partial"] += 1
             stats["partial_rejected"] += judged is None
@@ -1220,7 +1350,8 @@ def run(tier, seed, **opts):
             f"scaffold, <= 4 painted scaffolds; {len(FIXED_CASES)} fixed hand-made case + {stats['enumerated']} enumerated tagged-piece-position cases "
             f"(all enumerated; {stats['enumerated_rejected']} of them rejected; {stats['primary_mode']} in Primary-tag mode) + {stats['partial']} partly-placed-input-scaffold cases "
             f"({stats['partial_rejected']} rejected, {stats['partial_with_absent_contigs']} completed with >= 1 contig of a placed scaffold absent from the map) + {stats['moved']} tag-against-name cases "
-            f"({stats['moved_rejected']} rejected) + {n_cases} seeded cases; cases also run through the command line: {stats['cli']}; "
+            f"({stats['moved_rejected']} rejected) + {stats['shaped']} cases with unplaced and absent scaffolds named <haplotype>_<middle>_<digits> for {len(NAME_MIDDLES)} middle parts "
+            f"(letters/digits, further underscores, . - # | : = + @ ; , ( ) ~ / *, one character, a non-ASCII letter; {stats['shaped_rejected']} rejected) + {n_cases} seeded cases; cases also run through the command line: {stats['cli']}; "
             f"pieces/absent scaffolds judged: {stats['judged']}; maps "
             f"rejected with TaggingError/ChrNamerError (allowed, not judged): {stats['rejected_tagging']}; "
             f"modes: single={stats['single']} one-haplotype={stats['one']} two-haplotype={stats['two']} three-haplotype={stats['three']}; cases failing only in a "
